@@ -13,7 +13,8 @@ A fragment is an id; its text is recorder(fid, kind).  The first fragment execut
 Only bash builtins are used (process creation is the bottleneck of this sandbox).  Side
 channels through whitelisted host variables (they never enter an id):
   VERIF_EVLOG  event log ("start|end <workspace key>"), VERIF_SW switch directory
-  (fail/<key>: write junk + exit 1; kill/<key>: write junk + kill -9 the parent Bob),
+  (fail/<key>: write junk + exit 1; kill/<key>: write junk + kill -9 the parent Bob; dur/<key>: seconds to sleep
+  first, by a timed read from the FIFO sleep.fifo that nobody writes to),
   VERIF_ROOT project root (to derive the workspace key).
 """
 
@@ -31,6 +32,7 @@ if [ -z "${__V-}" ]; then
   echo "start $__k" >> "${VERIF_EVLOG:-/dev/null}"
   trap 'echo "end $__k $?" >> "${VERIF_EVLOG:-/dev/null}"; for i in "${_BOB_TMP_CLEANUP[@]-}" ; do if [ -n "$i" ]; then command rm -f "$i"; fi; done' EXIT
   if [ -n "${VERIF_SW-}" ]; then
+    if [ -e "$VERIF_SW/dur/$__k" ]; then read __d < "$VERIF_SW/dur/$__k"; read -t "$__d" __x <> "$VERIF_SW/sleep.fifo" || true; fi
     if [ -e "$VERIF_SW/fail/$__k" ]; then echo junk > %(out)s; exit 1; fi
     if [ -e "$VERIF_SW/kill/$__k" ]; then echo junk > %(out)s; kill -9 $PPID; read -t 5 __x < /dev/zero || true; fi
   fi
@@ -62,7 +64,7 @@ if [ -z "${__V-}" ]; then
   for __p in ${LD_LIBRARY_PATH-}; do
     if [ -f "$__p/toolid.txt" ]; then
       echo "L {" >> %(out)s
-      while IFS= read -r __l || [ -n "$__l" ]; do echo "  $__l" >> %(out)s; done < "$__p/toolid.txt"
+      %(pathcontent)s
       echo "}" >> %(out)s
     fi
   done
@@ -70,7 +72,7 @@ if [ -z "${__V-}" ]; then
     case $__p in "${VERIF_ROOT-/nonexistent}"/*)
       echo "P {" >> %(out)s
       if [ -f "$__p/toolid.txt" ]; then
-        while IFS= read -r __l || [ -n "$__l" ]; do echo "  $__l" >> %(out)s; done < "$__p/toolid.txt"
+        %(pathcontent)s
       fi
       echo "}" >> %(out)s;;
     esac
@@ -103,25 +105,36 @@ for __d in . bin0 bin1 lib0; do
 done
 '''
 
+# what is recorded about the directories found in PATH / LD_LIBRARY_PATH: their content (default), or - kind
+# "npc" - only their project relative name (weak tools put directories there whose content is deliberately not tracked
+# by Build-Ids)
+_PATHCONTENT = 'while IFS= read -r __l || [ -n "$__l" ]; do echo "  $__l" >> %(out)s; done < "$__p/toolid.txt"'
+_PATHNAME = 'echo "  ${__p#"${VERIF_ROOT-}"/}" >> %(out)s'
+
 OUTFILE = {"checkout": "src.txt", "build": "result.txt", "package": "result.txt"}
 
 def recorder(fid, step, kind="plain", inc=None):
     """script text of fragment fid for step kind ('checkout'|'build'|'package');
     inc = (mode, name): the fragment includes recipes/inc/<name> as quoted literal ("q") or as file ("f")"""
     out = OUTFILE[step]
-    txt = "# verif fragment %d\n" % fid + (_COMMON % {"out": out}).lstrip("\n")
+    kinds = set(kind.split("+"))
+    pc = (_PATHNAME if "npc" in kinds else _PATHCONTENT) % {"out": out}
+    txt = "# verif fragment %d\n" % fid + (_COMMON % {"out": out, "pathcontent": pc}).lstrip("\n")
     if inc:
         if inc[0] == "q":
             txt += 'echo "I "$<\'inc/%s\'> >> %s\n' % (inc[1], out)
         else:
             txt += 'while IFS= read -r __l || [ -n "$__l" ]; do echo "IF $__l" >> %s; done < $<<inc/%s>>\n' % (out, inc[1])
-    if kind == "fp":
+    if "fp" in kinds:
         txt += (_FP % {"out": out}).lstrip("\n")
+    if "nr" in kinds:
+        # what makes a package non-relocatable: its result depends on where it was built
+        txt += 'echo "R $PWD" >> %s\n' % out
     txt += 'echo "F %d" >> %s\n' % (fid, out)
     if step != "checkout":
         # a file whose *name* depends on the script text: leftovers of another variant become visible
         txt += ': > m%d.txt\n' % fid
-    if kind == "tooldirs":
+    if "tooldirs" in kinds:
         txt += _TOOLDIRS.lstrip("\n")
     return txt
 
